@@ -89,13 +89,13 @@ theorem CP.start_not_avoided {g : Graph} {A : NodeId → Prop} {x fin : NodeId} 
   | here => exact absurd rfl hne
   | step hn _ _ => exact hn
 
-/-- in-degrees of the nodes not yet expanded -/
-def unseenDeg (g : Graph) (seen : List NodeId) : List NodeId → Nat
+/-- total weight of the ids of `l` that are not in `seen` -/
+def unseenW (w : Nat → Nat) (seen : List Nat) : List Nat → Nat
   | [] => 0
-  | n :: ns => (if n ∈ seen then 0 else (g.incoming n).length) + unseenDeg g seen ns
+  | n :: ns => (if n ∈ seen then 0 else w n) + unseenW w seen ns
 
-theorem unseenDeg_cons_not_mem (g : Graph) (seen : List NodeId) (y : NodeId) :
-    ∀ (l : List NodeId), y ∉ l → unseenDeg g (y :: seen) l = unseenDeg g seen l := by
+theorem unseenW_cons_not_mem (w : Nat → Nat) (seen : List Nat) (y : Nat) :
+    ∀ (l : List Nat), y ∉ l → unseenW w (y :: seen) l = unseenW w seen l := by
   intro l
   induction l with
   | nil => intro _; rfl
@@ -103,11 +103,10 @@ theorem unseenDeg_cons_not_mem (g : Graph) (seen : List NodeId) (y : NodeId) :
     intro hy
     have hne : n ≠ y := fun h => hy (h ▸ List.mem_cons_self)
     have hns : y ∉ ns := fun h => hy (List.mem_cons_of_mem _ h)
-    simp only [unseenDeg, List.mem_cons, hne, false_or, ih hns]
+    simp only [unseenW, List.mem_cons, hne, false_or, ih hns]
 
-theorem unseenDeg_cons_mem (g : Graph) (seen : List NodeId) (y : NodeId) (hy : y ∉ seen) :
-    ∀ (l : List NodeId), l.Nodup → y ∈ l →
-      unseenDeg g (y :: seen) l + (g.incoming y).length = unseenDeg g seen l := by
+theorem unseenW_cons_mem (w : Nat → Nat) (seen : List Nat) (y : Nat) (hy : y ∉ seen) :
+    ∀ (l : List Nat), l.Nodup → y ∈ l → unseenW w (y :: seen) l + w y = unseenW w seen l := by
   intro l
   induction l with
   | nil => intro _ h; simp at h
@@ -116,16 +115,28 @@ theorem unseenDeg_cons_mem (g : Graph) (seen : List NodeId) (y : NodeId) (hy : y
     rw [List.nodup_cons] at hnd
     by_cases hny : n = y
     · subst hny
-      simp only [unseenDeg, List.mem_cons, true_or, ↓reduceIte, hy, Nat.zero_add,
-        unseenDeg_cons_not_mem g seen n ns hnd.1]
+      simp only [unseenW, List.mem_cons, true_or, ↓reduceIte, hy, Nat.zero_add,
+        unseenW_cons_not_mem w seen n ns hnd.1]
       omega
     · have : y ∈ ns := by
         rcases List.mem_cons.1 hmem with h | h
         · exact absurd h.symm hny
         · exact h
       have := ih hnd.2 this
-      simp only [unseenDeg, List.mem_cons, hny, false_or]
+      simp only [unseenW, List.mem_cons, hny, false_or]
       omega
+
+/-- in-degrees of the nodes not yet expanded -/
+def unseenDeg (g : Graph) (seen : List NodeId) (l : List NodeId) : Nat :=
+  unseenW (fun n => (g.incoming n).length) seen l
+
+theorem unseenDeg_cons_not_mem (g : Graph) (seen : List NodeId) (y : NodeId) (l : List NodeId) (h : y ∉ l) :
+    unseenDeg g (y :: seen) l = unseenDeg g seen l := unseenW_cons_not_mem _ seen y l h
+
+theorem unseenDeg_cons_mem (g : Graph) (seen : List NodeId) (y : NodeId) (hy : y ∉ seen) (l : List NodeId)
+    (hnd : l.Nodup) (hm : y ∈ l) :
+    unseenDeg g (y :: seen) l + (g.incoming y).length = unseenDeg g seen l :=
+  unseenW_cons_mem _ seen y hy l hnd hm
 
 theorem incoming_ge (g : Graph) (n : NodeId) (h : g.nodes.length ≤ n) : g.incoming n = [] := by
   unfold Graph.incoming Graph.node
@@ -248,7 +259,10 @@ theorem findNodeBackwards_iff (g : Graph) (start fin : NodeId) (blocked : List N
         generalize List.range g.nodes.length = l
         induction l with
         | nil => rfl
-        | cons n ns ih => simp [unseenDeg, ih]
+        | cons n ns ih =>
+          have : unseenDeg g [] (n :: ns) = (g.incoming n).length + unseenDeg g [] ns := by
+            simp [unseenDeg, unseenW]
+          simp [this, ih]
       simp only [List.length_singleton, this, Graph.bfsFuel]
       omega) ⟨start, List.mem_singleton.2 rfl, by
         have := clearPath_iff_cp.1 h
